@@ -6,14 +6,18 @@ Model: `Eliot/Model/Pretty.lean` (`prettyFormat`, `compactFormat`, `cliLine`/`cl
 (pprint, json, str, datetime are parameters).  Messages are association lists as `json.loads`
 returns them: `NodupKeys`.
 
-Status on the pinned tree
+Status on the current tree (after the fix 36c5d35 of `_main`)
 * `header_first`, `header_then_all_fields_once`, `filter_identity`, `filter_skip` hold as stated.
 * `compact_single_line` needs the hypothesis that no field *name* contains a newline (witness
   `compact_not_single_line_newline_in_key` shows it is necessary).
-* `cli_total` is **false**: a JSON line that is not an object aborts the program with
-  `AttributeError`, an object whose `task_level` is not iterable with `TypeError`, a `timestamp` that
-  `datetime` rejects with that error.  Proved: `cli_total_partial` (well-typed or non-JSON input),
-  `cli_run_partial` (whole stream), the witnesses and `cli_total_false`.
+* `cli_total` now holds for every input line — JSON values that are not objects, ill-typed
+  `task_level` / `timestamp`, absurdly nested JSON are all reported — under the hypothesis
+  `StdlibOK` on the *library parameters*: `json.loads` raises nothing but `ValueError` /
+  `RecursionError`, `datetime` and `pprint.pformat` raise nothing outside
+  `(TypeError, ValueError, OverflowError, OSError)`.  The `pformat` part is not true of CPython:
+  `pprint` recurses in Python and raises `RecursionError` on a value nested a few hundred deep that
+  `json.loads` still accepts; `cli_aborts_on_pformat_recursion` shows the program then aborts
+  (pretty format only).
 -/
 namespace PP
 
@@ -198,43 +202,47 @@ newline, the timestamp line, a newline, then the fields; the UTC timestamp line 
 text followed by `Z`.  (That the `isoformat()` text has microsecond precision is a fact about
 `datetime`, checked by the harness oracle, not a theorem.) -/
 theorem header_first (E : Env) (m : Fields) (localTz : Bool) (out : Text) (h : prettyFormat E m localTz = .ok out) :
-    ∃ uuid lv xs iso, get? m kTaskUuid = some uuid ∧ get? m kTaskLevel = some lv ∧ iterOf lv = some xs
+    ∃ uuid lv xs iso body, get? m kTaskUuid = some uuid ∧ get? m kTaskLevel = some lv ∧ iterOf lv = some xs
       ∧ (∃ tv, get? m kTimestamp = some tv ∧ E.isoTime tv localTz = .ok iso)
+      ∧ prettyBody E m = .ok body
       ∧ out = E.pyStr uuid ++ t " -> " ++ (t "/" ++ join (t "/") (xs.map E.pyStr)) ++ [10]
-              ++ (if localTz then iso else iso ++ t "Z") ++ [10] ++ prettyBody E m := by
+              ++ (if localTz then iso else iso ++ t "Z") ++ [10] ++ body := by
   unfold prettyFormat at h
   split at h
   · cases h
-  · rename_i level hl
+  · rename_i body hbody
     split at h
     · cases h
-    · rename_i uuid hu
+    · rename_i level hl
       split at h
       · cases h
-      · rename_i ts hts
-        cases h
-        unfold levelText at hl
-        split at hl
-        · cases hl
-        · rename_i lv hlv
+      · rename_i uuid hu
+        split at h
+        · cases h
+        · rename_i ts hts
+          cases h
+          unfold levelText at hl
           split at hl
           · cases hl
-          · rename_i xs hxs
-            cases hl
-            unfold uuidText at hu
-            split at hu
-            · cases hu
-            · rename_i uv huv
-              cases hu
-              unfold renderTimestamp at hts
-              split at hts
-              · cases hts
-              · rename_i tv htv
+          · rename_i lv hlv
+            split at hl
+            · cases hl
+            · rename_i xs hxs
+              cases hl
+              unfold uuidText at hu
+              split at hu
+              · cases hu
+              · rename_i uv huv
+                cases hu
+                unfold renderTimestamp at hts
                 split at hts
                 · cases hts
-                · rename_i iso hiso
-                  cases hts
-                  exact ⟨uv, lv, xs, iso, huv, hlv, hxs, ⟨tv, htv, hiso⟩, rfl⟩
+                · rename_i tv htv
+                  split at hts
+                  · cases hts
+                  · rename_i iso hiso
+                    cases hts
+                    exact ⟨uv, lv, xs, iso, body, huv, hlv, hxs, ⟨tv, htv, hiso⟩, hbody, rfl⟩
 
 /-- The same for `compact_format`: `str(task_uuid)` immediately followed by the level, a blank, the
 timestamp, a blank, the parts. -/
@@ -279,12 +287,44 @@ theorem header_first_compact (E : Env) (m : Fields) (localTz : Bool) (out : Text
 
 /-! ## `header_then_all_fields_once` -/
 
+/-- the text `pformat` returned (empty when it raised) -/
+def pformatOf (E : Env) (v : JVal) : Text :=
+  match E.pformat v with
+  | .ok p => p
+  | .error _ => []
+
+theorem bodyOf_ok (E : Env) : ∀ (es : Fields) (body : Text), bodyOf E es = .ok body →
+    body = es.flatMap (fun e => addFieldText e.1 (pformatOf E e.2)) ∧ ∀ e ∈ es, E.pformat e.2 = .ok (pformatOf E e.2)
+  | [], body, h => by simp [bodyOf] at h; subst h; simp
+  | e :: es, body, h => by
+    unfold bodyOf at h
+    split at h
+    · cases h
+    · rename_i a ha
+      split at h
+      · cases h
+      · rename_i r hr
+        cases h
+        obtain ⟨hr1, hr2⟩ := bodyOf_ok E es r hr
+        unfold addField at ha
+        split at ha
+        · cases ha
+        · rename_i p hp
+          cases ha
+          have hpf : pformatOf E e.2 = p := by simp [pformatOf, hp]
+          refine ⟨by simp [List.flatMap_cons, hpf, hr1], ?_⟩
+          intro x hx
+          cases hx with
+          | head => rw [hpf]; exact hp
+          | tail _ hx => exact hr2 x hx
+
 /-- After the header both formats show exactly the pairs `shown m`, each through `add_field` / as
 `key=dumps(value)`; `shown m` lists `action_type, message_type, action_status` (those present) and
 then the remaining non-skip keys; every non-skip key of the message and every present first field
 occurs exactly once, with the message's value, and nothing else occurs. -/
 theorem header_then_all_fields_once (E : Env) (m : Fields) (hn : NodupKeys m) :
-    prettyBody E m = (shown m).flatMap (fun e => addField E e.1 e.2)
+    (∀ body, prettyBody E m = .ok body →
+        body = (shown m).flatMap (fun e => addFieldText e.1 (pformatOf E e.2)) ∧ ∀ e ∈ shown m, E.pformat e.2 = .ok (pformatOf E e.2))
     ∧ compactBody E m = join (t " ") ((shown m).map fun e => e.1 ++ t "=" ++ E.dumps e.2)
     ∧ shownKeys m = (firstFields.filter fun f => (get? m f).isSome)
         ++ ((sortItems m).filter fun e => !skipFields.contains e.1).map (·.1)
@@ -295,7 +335,7 @@ theorem header_then_all_fields_once (E : Env) (m : Fields) (hn : NodupKeys m) :
   have hperm := sortItems_perm m
   have hcountSorted : ∀ k, ((sortItems m).map (·.1)).count k = (keys m).count k :=
     fun k => (hperm.map (·.1)).count_eq k
-  refine ⟨rfl, rfl, shownKeys_eq m, ?_, ?_, ?_, ?_⟩
+  refine ⟨fun body hb => bodyOf_ok E (shown m) body hb, rfl, shownKeys_eq m, ?_, ?_, ?_, ?_⟩
   · intro k hk hskip
     rw [shownKeys_eq, List.count_append]
     have h1 : (firstFields.filter fun f => (get? m f).isSome).count k = 0 := by
@@ -398,7 +438,7 @@ theorem compact_single_line (E : Env) (m : Fields) (localTz : Bool) (out : Text)
 
 /-- an environment whose renderings never contain a newline -/
 def flatEnv : Env where
-  pformat := fun _ => t "v"
+  pformat := fun _ => .ok (t "v")
   dumps := fun _ => t "1"
   pyStr := fun _ => t "u"
   isoTime := fun _ _ => .ok (t "1970-01-01T00:00:01")
@@ -419,22 +459,13 @@ def Out.isAbort : Out → Bool
   | .aborts _ => true
   | _ => false
 
-/-- the line is not JSON, or decodes to an object that either lacks a required field or whose
-`task_level` can be iterated and whose `timestamp` `datetime` accepts -/
-def WellTypedLine (E : Env) (localTz : Bool) (line : Bytes) : Prop :=
-  match E.loads line with
-  | .notJson => True
-  | .raises _ => False
-  | .value (.obj m) =>
-    (requiredFields.any fun r => !has m r) = false →
-      (∃ lv xs, get? m kTaskLevel = some lv ∧ iterOf lv = some xs)
-      ∧ (∃ tv s, get? m kTimestamp = some tv ∧ E.isoTime tv localTz = .ok s)
-  | .value _ => False
-
-/-
-Full statement — FALSE on the pinned tree:
-theorem cli_total : ∀ E compact localTz line, (cliLine E compact localTz line).isAbort = false
--/
+/-- What `_main` relies on about the standard library: `json.loads` raises nothing but `ValueError`
+(= `notJson`) and `RecursionError`; `datetime.(utc)fromtimestamp` and `pprint.pformat` raise nothing
+outside `(TypeError, ValueError, OverflowError, OSError)`. -/
+structure StdlibOK (E : Env) : Prop where
+  loads : ∀ line e, E.loads line = .raises e → e = .recursionError
+  isoTime : ∀ v l e, E.isoTime v l = .error e → caught e = true
+  pformat : ∀ v e, E.pformat v = .error e → caught e = true
 
 theorem has_all_required {m : Fields} (h : (requiredFields.any fun r => !has m r) = false) :
     (∃ v, get? m kTaskLevel = some v) ∧ (∃ v, get? m kTaskUuid = some v) ∧ (∃ v, get? m kTimestamp = some v) := by
@@ -442,72 +473,186 @@ theorem has_all_required {m : Fields} (h : (requiredFields.any fun r => !has m r
     Option.isSome_iff_exists] at h
   exact h
 
-theorem cli_total_partial (E : Env) (compact localTz : Bool) (line : Bytes) (hw : WellTypedLine E localTz line) :
+theorem bodyOf_error (E : Env) : ∀ (es : Fields) (e : Exc), bodyOf E es = .error e → ∃ v, E.pformat v = .error e
+  | [], e, h => by simp [bodyOf] at h
+  | x :: xs, e, h => by
+    unfold bodyOf at h
+    split at h
+    · rename_i err ha
+      cases h
+      unfold addField at ha
+      split at ha
+      · rename_i e' he'; cases ha; exact ⟨x.2, he'⟩
+      · cases ha
+    · split at h
+      · rename_i err hr; cases h; exact bodyOf_error E xs _ hr
+      · cases h
+
+/-- Where an exception of a formatter can come from, for a message that has the three required fields:
+a `task_level` that cannot be iterated (`TypeError`), `datetime`, or (pretty only) `pformat`. -/
+theorem format_error_cases (E : Env) (compact localTz : Bool) (m : Fields) (e : Exc)
+    (hreq : (requiredFields.any fun r => !has m r) = false)
+    (h : (if compact then compactFormat E m localTz else prettyFormat E m localTz) = .error e) :
+    e = .typeError ∨ (∃ v l, E.isoTime v l = .error e) ∨ (compact = false ∧ ∃ v, E.pformat v = .error e) := by
+  obtain ⟨⟨lv, hlv⟩, ⟨uv, huv⟩, ⟨tv, htv⟩⟩ := has_all_required hreq
+  have hlevel : ∀ x, levelText E m = .error x → x = .typeError := by
+    intro x hx
+    unfold levelText at hx
+    rw [hlv] at hx
+    simp only at hx
+    split at hx
+    · cases hx; rfl
+    · cases hx
+  have huuid : ∀ x, uuidText E m ≠ .error x := by
+    intro x hx
+    simp [uuidText, huv] at hx
+  have hts : ∀ x, renderTimestamp E m localTz = .error x → E.isoTime tv localTz = .error x := by
+    intro x hx
+    unfold renderTimestamp at hx
+    rw [htv] at hx
+    simp only at hx
+    split at hx
+    · rename_i e' he'; cases hx; exact he'
+    · cases hx
+  cases compact with
+  | true =>
+    simp only [if_true] at h
+    unfold compactFormat at h
+    split at h
+    · rename_i x hx; exact absurd hx (huuid x)
+    · split at h
+      · rename_i x hx; cases h; exact Or.inl (hlevel _ hx)
+      · split at h
+        · rename_i x hx; cases h; exact Or.inr (Or.inl ⟨tv, localTz, hts _ hx⟩)
+        · cases h
+  | false =>
+    simp only [Bool.false_eq_true, if_false] at h
+    unfold prettyFormat at h
+    split at h
+    · rename_i x hx; cases h
+      exact Or.inr (Or.inr ⟨rfl, bodyOf_error E _ _ hx⟩)
+    · split at h
+      · rename_i x hx; cases h; exact Or.inl (hlevel _ hx)
+      · split at h
+        · rename_i x hx; exact absurd hx (huuid x)
+        · split at h
+          · rename_i x hx; cases h; exact Or.inr (Or.inl ⟨tv, localTz, hts _ hx⟩)
+          · cases h
+
+/-- **`cli_total`.**  For every input line whatsoever — arbitrary bytes, any JSON value, objects with
+or without the required fields, well or ill typed — the program writes a formatted message, a
+`Not JSON` report or a `Not an Eliot message` report, and goes on; it never aborts. -/
+theorem cli_total (E : Env) (hE : StdlibOK E) (compact localTz : Bool) (line : Bytes) :
     (cliLine E compact localTz line).isAbort = false := by
-  unfold WellTypedLine at hw
   unfold cliLine
-  split at hw
-  · rename_i hl; simp [hl, Out.isAbort]
-  · exact absurd hw id
+  simp only
+  split
+  · rfl
+  · rename_i e hl
+    rw [hE.loads line e hl]
+    simp [Out.isAbort]
   · rename_i m hl
-    simp only [hl]
     split
     · rfl
     · rename_i hreq
       have hreq' : (requiredFields.any fun r => !has m r) = false := by simpa using hreq
-      obtain ⟨⟨lv, xs, hlv, hxs⟩, ⟨tv, s, htv, hs⟩⟩ := hw hreq'
-      obtain ⟨-, ⟨uv, huv⟩, -⟩ := has_all_required hreq'
-      cases compact <;>
-        simp [prettyFormat, compactFormat, levelText, uuidText, renderTimestamp, hlv, hxs, huv, htv, hs, Out.isAbort]
-  · exact absurd hw id
+      split
+      · rfl
+      · rename_i e he
+        have hc : caught e = true := by
+          rcases format_error_cases E compact localTz m e hreq' he with h | ⟨v, l, h⟩ | ⟨-, v, h⟩
+          · subst h; rfl
+          · exact hE.isoTime v l e h
+          · exact hE.pformat v e h
+        simp [hc, Out.isAbort]
+  · rfl
 
-/-- `[1,2]`, `5`, `"s"`, `null`, `true`: a JSON value that is not an object aborts the program. -/
-theorem cli_aborts_on_non_object (E : Env) (compact localTz : Bool) (line : Bytes) (v : JVal)
-    (hl : E.loads line = .value v) (hv : ∀ m, v ≠ .obj m) :
-    cliLine E compact localTz line = .aborts .attributeError := by
-  unfold cliLine
-  rw [hl]
-  cases v with
-  | obj m => exact absurd rfl (hv m)
-  | _ => rfl
-
-/-- An object with the three required fields whose `task_level` is a number, `null` or a boolean
-aborts the program with `TypeError`, in both formats. -/
-theorem cli_aborts_on_bad_task_level (E : Env) (compact localTz : Bool) (line : Bytes) (m : Fields) (lv : JVal)
-    (hl : E.loads line = .value (.obj m)) (hreq : (requiredFields.any fun r => !has m r) = false)
-    (hlv : get? m kTaskLevel = some lv) (hit : iterOf lv = none) :
-    cliLine E compact localTz line = .aborts .typeError := by
-  obtain ⟨-, ⟨uv, huv⟩, -⟩ := has_all_required hreq
-  unfold cliLine
-  rw [hl]
-  simp only [hreq, Bool.false_eq_true, if_false]
-  cases compact <;> simp [prettyFormat, compactFormat, levelText, uuidText, hlv, hit, huv]
-
-/-- an environment that decodes every line to the JSON array `[1,2]` -/
-def arrayEnv : Env := { flatEnv with loads := fun _ => .value (.arr [.int 1, .int 2]) }
-
-theorem cli_total_false :
-    ¬ (∀ (E : Env) (compact localTz : Bool) (line : Bytes), (cliLine E compact localTz line).isAbort = false) := by
-  intro h
-  have := h arrayEnv false false []
-  rw [cli_aborts_on_non_object arrayEnv false false [] (.arr [.int 1, .int 2]) rfl (by intro m hm; cases hm)] at this
-  cases this
-
-/-- On a stream of well-typed / non-JSON lines the program reads every line, writes one chunk per
-line and ends normally. -/
-theorem cli_run_partial (E : Env) (compact localTz : Bool) : ∀ (lines : List Bytes),
-    (∀ l ∈ lines, WellTypedLine E localTz l) →
+/-- Whole stream: every line is read, one chunk is written per line, the program ends normally. -/
+theorem cli_run_total (E : Env) (hE : StdlibOK E) (compact localTz : Bool) : ∀ (lines : List Bytes),
     (cliRun E compact localTz lines).2 = none ∧ (cliRun E compact localTz lines).1.length = lines.length
-  | [], _ => by simp [cliRun]
-  | l :: ls, h => by
-    have h1 := cli_total_partial E compact localTz l (h l (by simp))
-    have ih := cli_run_partial E compact localTz ls (fun x hx => h x (List.mem_cons_of_mem _ hx))
+  | [] => by simp [cliRun]
+  | l :: ls => by
+    have h1 := cli_total E hE compact localTz l
+    have ih := cli_run_total E hE compact localTz ls
     unfold cliRun
     cases hc : cliLine E compact localTz l with
     | aborts e => rw [hc] at h1; cases h1
     | formatted s => simp [ih]
     | notJson s => simp [ih]
     | notEliot s => simp [ih]
+
+/-- `[1,2]`, `5`, `"s"`, `null`, `true`: a JSON value that is not an object is reported, for every `Env`
+(it used to abort the program with `AttributeError`). -/
+theorem cli_reports_non_object (E : Env) (compact localTz : Bool) (line : Bytes) (v : JVal)
+    (hl : E.loads line = .value v) (hv : ∀ m, v ≠ .obj m) :
+    cliLine E compact localTz line = .notEliot (t "Not an Eliot message: " ++ E.reprBytes (rstripNl line) ++ [10, 10]) := by
+  unfold cliLine
+  rw [hl]
+  cases v with
+  | obj m => exact absurd rfl (hv m)
+  | _ => rfl
+
+/-- An object with the three required fields whose `task_level` is a number, `null` or a boolean is
+reported, in the compact format for every `Env`, in the pretty format whenever `pformat` copes with
+the values (it used to abort with `TypeError`). -/
+theorem cli_reports_bad_task_level (E : Env) (localTz : Bool) (line : Bytes) (m : Fields) (lv : JVal)
+    (hl : E.loads line = .value (.obj m)) (hreq : (requiredFields.any fun r => !has m r) = false)
+    (hlv : get? m kTaskLevel = some lv) (hit : iterOf lv = none) :
+    cliLine E true localTz line = .notEliot (t "Not an Eliot message: " ++ E.reprBytes (rstripNl line) ++ [10, 10])
+    ∧ (∀ body, prettyBody E m = .ok body →
+        cliLine E false localTz line = .notEliot (t "Not an Eliot message: " ++ E.reprBytes (rstripNl line) ++ [10, 10])) := by
+  obtain ⟨-, ⟨uv, huv⟩, -⟩ := has_all_required hreq
+  constructor
+  · unfold cliLine
+    rw [hl]
+    simp [hreq, compactFormat, levelText, uuidText, hlv, hit, huv, caught]
+  · intro body hb
+    unfold cliLine
+    rw [hl]
+    simp [hreq, prettyFormat, hb, levelText, hlv, hit, caught]
+
+/-- The remaining way to abort `eliot-prettyprint` (pretty format): `pprint.pformat` raising
+`RecursionError` on a field value — a genuine Eliot message with one value nested deeper than Python's
+recursion limit allows `pprint` to follow, though `json.loads` accepted it. -/
+theorem cli_aborts_on_pformat_recursion (E : Env) (localTz : Bool) (line : Bytes) (m : Fields) (k : Text) (v : JVal)
+    (hl : E.loads line = .value (.obj m)) (hreq : (requiredFields.any fun r => !has m r) = false)
+    (hmem : (k, v) ∈ shown m) (hrec : ∀ x, E.pformat x = .error .recursionError ∨ ∃ p, E.pformat x = .ok p)
+    (hv : E.pformat v = .error .recursionError) :
+    cliLine E false localTz line = .aborts .recursionError := by
+  have hbody : ∀ es : Fields, (k, v) ∈ es → bodyOf E es = .error .recursionError := by
+    intro es
+    induction es with
+    | nil => intro h; cases h
+    | cons x xs ih =>
+      intro h
+      unfold bodyOf
+      rcases hrec x.2 with hx | ⟨p, hx⟩
+      · simp [addField, hx]
+      · have hmem' : (k, v) ∈ xs := by
+          cases h with
+          | head => rw [hv] at hx; cases hx
+          | tail _ h => exact h
+        simp [addField, hx, ih hmem']
+  unfold cliLine
+  rw [hl]
+  simp [hreq, prettyFormat, prettyBody, hbody (shown m) hmem, caught]
+
+/-- an environment whose `pformat` gives up on arrays -/
+def deepEnv : Env := { flatEnv with
+  pformat := fun v => match v with | .arr _ => .error .recursionError | _ => .ok (t "v")
+  loads := fun _ => .value (.obj [(kTaskUuid, .str (t "u")), (kTaskLevel, .arr [.int 1]), (kTimestamp, .num (t "1.0")), (t "x", .arr [])]) }
+
+/-- The hypothesis `StdlibOK.pformat` of `cli_total` is necessary. -/
+theorem cli_total_needs_pformat :
+    ¬ (∀ (E : Env), (∀ line e, E.loads line = .raises e → e = .recursionError) →
+        (∀ v l e, E.isoTime v l = .error e → caught e = true) →
+        ∀ (compact localTz : Bool) (line : Bytes), (cliLine E compact localTz line).isAbort = false) := by
+  intro h
+  have := h deepEnv (by intro line e he; simp [deepEnv] at he) (by intro v l e he; simp [deepEnv, flatEnv] at he) false false []
+  rw [cli_aborts_on_pformat_recursion deepEnv false [] _ (t "x") (.arr []) rfl (by decide)
+    (by rw [show shown _ = [(t "x", JVal.arr [])] from rfl]; exact List.mem_singleton.mpr rfl)
+    (by intro x; cases x <;> simp [deepEnv]) rfl] at this
+  cases this
 
 /-! ## The filter -/
 
@@ -558,8 +703,10 @@ example : prettyFormat flatEnv exMsg false
     = .ok (t "u -> /u/u\n1970-01-01T00:00:01Z\n  action_type: v\n  action_status: v\n  k: v\n  x: v\n") := by rfl
 example : compactFormat flatEnv exMsg false
     = .ok (t "u/u/u 1970-01-01T00:00:01Z action_type=1 action_status=1 k=1 x=1") := by rfl
-example : WellTypedLine { flatEnv with loads := fun _ => .value (.obj exMsg) } false [] := by
-  intro _
-  exact ⟨⟨.arr [.int 1, .int 2], [.int 1, .int 2], rfl, rfl⟩, ⟨.num (t "1.5"), t "1970-01-01T00:00:01", rfl, rfl⟩⟩
+example : StdlibOK flatEnv :=
+  ⟨by intro line e he; simp [flatEnv] at he, by intro v l e he; simp [flatEnv] at he, by intro v e he; simp [flatEnv] at he⟩
+example : cliLine { flatEnv with loads := fun _ => .value (.arr [.int 1, .int 2]) } false false [91, 10]
+    = .notEliot (t "Not an Eliot message: b''\n\n") := by rfl
+example : cliLine { flatEnv with loads := fun _ => .raises .recursionError } true false [91, 10] = .notJson (t "Not JSON: b''\n\n") := by rfl
 
 end PP
